@@ -44,7 +44,7 @@ ASSUMPTIONS = [
     'number of cases where 1 - Phi(z) came out slightly negative is reported in monitor_counters); sums telescope exactly',
 ]
 MIN_DISTINCT = {'quick': 300, 'thorough': 3000}
-CASE_TIMEOUT = 120
+CASE_TIMEOUT = 300
 N_RANDOM = {'quick': 360, 'thorough': 4000}
 
 BUILTIN = ['logit', 'nested', 'nested_mu', 'cnl', 'cnlmu']
